@@ -1492,8 +1492,46 @@ def attr_memo(check: Check, repo: Repo, mods: list[Module], rule: str = "ATTR-ME
                         ok = False
                         why = (f"the test `{unparse(guard.test)}` serves the memo when {bad_cell}: a hit requires a stored value "
                                "AND stored inputs identical to the current ones")
+                if ok and foreign:
+                    proj = _memo_key_projection(guard.test, holder, fn, params, org, foreign)
+                    if proj is not None:
+                        ok = False
+                        why = (f"the hit test compares the stored key with `{proj}`, a projection of the input (text, name, id ...) that "
+                               f"different objects share: the memo on `{holder}` answers for another object with the same projection "
+                               "(the equally named type of an extended schema)")
                 check.ob(rule, st, f"{qualname_of(st)}: {holder}.{attr} memoises a value", ok, why)
     check.note(attr_memos=n)
+
+
+def _memo_key_projection(test: ast.AST, holder: str, fn: ast.AST, params: set[str], org: Origins, foreign: set[str]) -> str | None:
+    """The current-key side of `holder.<key> is/== K` in a memo guard when K is not the input object itself."""
+    for cmp in ast.walk(test):
+        if not (isinstance(cmp, ast.Compare) and len(cmp.ops) == 1 and isinstance(cmp.ops[0], (ast.Is, ast.IsNot, ast.Eq, ast.NotEq))):
+            continue
+        sides = [cmp.left, cmp.comparators[0]]
+        stored = [x for x in sides if unparse(x).startswith(holder + ".")]
+        other = [x for x in sides if not unparse(x).startswith(holder + ".")]
+        if len(stored) != 1 or len(other) != 1:
+            continue
+        k = other[0]
+        if isinstance(k, ast.Constant) or unparse(k) in ("Undefined", "None"):
+            continue
+
+        def pure_chain(e: ast.AST) -> bool:
+            while isinstance(e, ast.Attribute):
+                e = e.value
+            return isinstance(e, ast.Name)
+
+        exprs = [k]
+        if isinstance(k, ast.Name) and k.id not in params:
+            exprs = [d.value for d in org.reaching(k.id, k) if d.value is not None and d.kind in ("assign", "walrus")] or [k]
+        for e in exprs:
+            if not pure_chain(e):
+                return unparse(e)
+            chains = _param_chains(e, fn, params, org, cmp)
+            if chains and not (chains & foreign) and any(c.startswith(f + ".") for c in chains for f in foreign):
+                return unparse(e)
+    return None
 
 
 def _memo_guard_logic(test: ast.AST, test_is_hit: bool, read_name: str, holder: str, has_foreign: bool) -> str | None:
@@ -1929,3 +1967,125 @@ def _own_exprs(stmt: ast.AST) -> list[ast.AST]:
     if isinstance(stmt, (ast.Try, ast.FunctionDef, ast.AsyncFunctionDef, ast.ClassDef)):
         return []
     return [stmt]
+
+
+SCOPE_PARAMS = ("variable_values", "fragment_variable_values")
+
+
+def scope_threading(check: Check, repo: Repo, mods: list[Module], rule: str = "SCOPE-THREAD") -> None:
+    check.rule(
+        rule,
+        "a variable reference is looked up in two scopes - the operation's coerced variables and the variables of the "
+        "enclosing fragment spread - and every function of the coercion chain takes both (parameters variable_values and "
+        "fragment_variable_values). At every direct call of such a function: (1) the two scopes travel together - a call "
+        "that passes operation variables passes fragment variables too; (2) a caller that received the scopes itself "
+        "(same parameter names) hands its own values on to every callee that accepts them. A call that drops a scope "
+        "makes `$v` inside that sub-value look unprovided (default used / 'was not provided' error) or resolve in the "
+        "wrong scope - the resolver then receives other argument values than input coercion prescribes",
+    )
+    defs: dict[str, list[str]] = {}
+    for m in repo.modules.values():
+        for f in m.functions():
+            if isinstance(f, ast.Lambda) or qualname_of(f) != f.name:
+                continue  # module-level functions only: they are called by name
+            ps = [a.arg for a in f.args.posonlyargs + f.args.args + f.args.kwonlyargs]
+            if all(s in ps for s in SCOPE_PARAMS):
+                defs.setdefault(f.name, ps)
+    if len(defs) < 8:
+        raise AnalysisError("SCOPE-THREAD: functions taking both variable scopes not found")
+    n = 0
+    for m in mods:
+        for c in ast.walk(m.tree):
+            if not (isinstance(c, ast.Call) and isinstance(c.func, ast.Name) and c.func.id in defs):
+                continue
+            ps = defs[c.func.id]
+            got: dict[str, ast.AST] = {}
+            for i, a in enumerate(c.args):
+                if i < len(ps) and not isinstance(a, ast.Starred):
+                    got[ps[i]] = a
+            for kw in c.keywords:
+                if kw.arg:
+                    got[kw.arg] = kw.value
+            passed = {s: got.get(s) for s in SCOPE_PARAMS}
+            given = {s: (v is not None and not (isinstance(v, ast.Constant) and v.value is None)) for s, v in passed.items()}
+            fn = enclosing_function(c)
+            own = set()
+            if fn is not None and not isinstance(fn, ast.Lambda):
+                own = {a.arg for a in fn.args.posonlyargs + fn.args.args + fn.args.kwonlyargs} & set(SCOPE_PARAMS)
+            problems = []
+            if given["variable_values"] and not given["fragment_variable_values"]:
+                problems.append("passes operation variables but no fragment variables")
+            for s in sorted(own):
+                v = passed[s]
+                carrier = v is not None and isinstance(v, ast.Attribute) and v.attr == s  # the scope stored with a value source
+                if v is None or not (carrier or any(isinstance(x, ast.Name) and x.id == s for x in ast.walk(v))):
+                    problems.append(f"the caller's own `{s}` is not handed on")
+            n += 1
+            check.ob(rule, c, f"{qualname_of(c)}: {c.func.id}(...)", not problems,
+                     ("both scopes passed" if all(given.values()) else "no scope in hand (constant context)") if not problems else "; ".join(problems),
+                     nontrivial=bool(own) or any(given.values()))
+    check.note(scope_functions=sorted(defs))
+    return n
+
+
+def option_independent(check: Check, repo: Repo, rule: str = "OPTION-INDEPENDENT") -> None:
+    check.rule(
+        rule,
+        "Executor.build passes each caller-supplied option on to the constructor parameter of the same name; what "
+        "reaches that parameter is computed from that option alone and module-level defaults (followed through local "
+        "re-assignments). In particular the three resolvers are independent: the subscription source is created with "
+        "subscribe_field_resolver or else the library's default resolver, never with the resolver meant for ordinary "
+        "fields - a custom field_resolver (say, camelCase lookup on result objects) must not be applied to the root value "
+        "to find the event source",
+    )
+    ci = ClassIndex(repo).get("execution.executor", "Executor")
+    build, init = ci.methods().get("build"), ci.methods().get("__init__")
+    if build is None or init is None:
+        raise AnalysisError("Executor.build / __init__ not found")
+    init_params = [a.arg for a in init.args.args][1:]
+    build_params = {a.arg for a in build.args.posonlyargs + build.args.args + build.args.kwonlyargs}
+    ctor = [c for c in walk_body(build) if isinstance(c, ast.Call) and unparse(c.func) == "cls"]
+    if len(ctor) != 1:
+        raise AnalysisError("Executor.build: constructor call not found")
+    bound: dict[str, ast.AST] = {}
+    for i, a in enumerate(ctor[0].args):
+        if i < len(init_params):
+            bound[init_params[i]] = a
+    for kw in ctor[0].keywords:
+        if kw.arg:
+            bound[kw.arg] = kw.value
+    # local assignments of build: name -> every expression assigned to it
+    assigned: dict[str, list[ast.AST]] = {}
+    for s in walk_body(build):
+        if isinstance(s, ast.Assign):
+            for t in s.targets:
+                if isinstance(t, ast.Name):
+                    assigned.setdefault(t.id, []).append(s.value)
+        elif isinstance(s, ast.AnnAssign) and isinstance(s.target, ast.Name) and s.value is not None:
+            assigned.setdefault(s.target.id, []).append(s.value)
+
+    def leaves(e: ast.AST, seen: frozenset = frozenset()) -> set[str]:
+        out: set[str] = set()
+        for x in ast.walk(e):
+            if isinstance(x, ast.Name) and isinstance(x.ctx, ast.Load):
+                if x.id in assigned and x.id not in seen:
+                    if x.id in build_params:
+                        out.add(x.id)
+                    for v in assigned[x.id]:
+                        out |= leaves(v, seen | {x.id})
+                else:
+                    out.add(x.id)
+        return out
+
+    n = 0
+    for p in init_params:
+        if p not in build_params or p not in bound or not p.endswith("resolver"):
+            continue
+        lv = leaves(bound[p])
+        foreign = sorted(x for x in lv if x in build_params and x != p)
+        n += 1
+        check.ob(rule, bound[p], f"Executor.build: constructor parameter `{p}`", not foreign and p in lv,
+                 f"computed from `{p}` and {sorted(lv - {p})}" if not foreign and p in lv else
+                 (f"depends on the other option(s) {foreign}: `{unparse(bound[p])}`" if foreign else f"the option `{p}` does not reach the constructor: `{unparse(bound[p])}`"))
+    if n < 3:
+        raise AnalysisError("Executor.build: resolver options not found")
